@@ -1,0 +1,31 @@
+//go:build verif
+
+package quic
+
+// Export shim for the verification harness in /verif (property C14). Compiled only with
+// -tags verif. Adds no behaviour: it forwards to the unexported (*baseServer).validateToken,
+// the predicate handleInitialImpl uses to decide whether a token proves the client's address.
+
+import (
+	"net"
+	"time"
+
+	"github.com/refraction-networking/uquic/internal/handshake"
+)
+
+// VerifValidateToken evaluates the server's token validation predicate for a server whose
+// Transport.MaxTokenAge is maxTokenAge and whose Config.HandshakeIdleTimeout is
+// handshakeIdleTimeout (the Retry token lifetime is derived from it by Config.maxRetryTokenAge).
+func VerifValidateToken(tok *handshake.Token, addr net.Addr, maxTokenAge, handshakeIdleTimeout time.Duration) bool {
+	s := &baseServer{
+		maxTokenAge: maxTokenAge,
+		config:      &Config{HandshakeIdleTimeout: handshakeIdleTimeout},
+	}
+	return s.validateToken(tok, addr)
+}
+
+// VerifMaxRetryTokenAge returns the Retry token lifetime the server derives from a Config
+// with the given HandshakeIdleTimeout.
+func VerifMaxRetryTokenAge(handshakeIdleTimeout time.Duration) time.Duration {
+	return (&Config{HandshakeIdleTimeout: handshakeIdleTimeout}).maxRetryTokenAge()
+}
